@@ -1,10 +1,193 @@
-(* C16 - Stop completes, leaves nothing running, and reload keeps the swarm data.  Only statements here. *)
+(* C16 - Stop completes, leaves nothing running, and reload keeps the swarm data.
+   Only statements here.  The machines (Model/Lifecycle.v) take a boolean:
+   true = the protocol the property demands (post-response hooks counted in the
+   wait group Stop waits for; HTTP server object built in NewFrontend, serving
+   goroutine awaited), false = the code before the fixes F6/F7.  Schedules are
+   arbitrary lists of thread choices: "forall sched" = every interleaving of
+   start-up, traffic, request handlers, post-response hooks and Stop. *)
 From Coq Require Import List ZArith.
 From Chihaya Require Import Model.Lifecycle Proofs.LifecycleP.
 Import ListNotations.
 
+(* ---- stop groups (pkg/stop, also middleware.Logic.Stop and the frontends' groups) *)
+
+(* whatever subset of the members fails, with however many errors each: the
+   group's result is exactly the members' errors, in member order *)
+Theorem C16_group_reports_all_errors :
+  forall es : list (list Z), group_result (map proper es) = proper (concat es).
+Proof. exact group_reports_all_errors. Qed.
+Print Assumptions C16_group_reports_all_errors.
+
+Theorem C16_group_no_error_lost :
+  forall (es : list (list Z)) i e, In e (nth i es []) -> In (Some e) (group_result (map proper es)).
+Proof. exact group_no_error_lost. Qed.
+Print Assumptions C16_group_no_error_lost.
+
+Theorem C16_group_clean_iff :
+  forall es : list (list Z), group_result (map proper es) = [] <-> forall m, In m es -> m = [].
+Proof. exact group_clean_iff. Qed.
+Print Assumptions C16_group_clean_iff.
+
+(* for arbitrary Done arguments (nil errors included): what each member's channel delivers, concatenated *)
+Theorem C16_group_result_concat :
+  forall ms : list raw, group_result ms = concat (map chan_wait ms).
+Proof. exact group_result_concat. Qed.
+Print Assumptions C16_group_result_concat.
+
+(* members complete in any order; the group's Result delivers iff every member completed *)
+Theorem C16_group_stop_terminates :
+  forall ms sched, (forall i, i < length ms -> In i sched) -> group_run ms sched = Some (group_result ms).
+Proof. exact group_stop_terminates. Qed.
+Print Assumptions C16_group_stop_terminates.
+
+Theorem C16_group_delivers_iff :
+  forall ms sched, (exists r, group_run ms sched = Some r) <-> (forall i, i < length ms -> In i sched).
+Proof. exact group_delivers_iff. Qed.
+Print Assumptions C16_group_delivers_iff.
+
+Theorem C16_group_run_result :
+  forall ms sched r, group_run ms sched = Some r -> r = group_result ms.
+Proof. exact group_run_result. Qed.
+Print Assumptions C16_group_run_result.
+
+(* ---- UDP frontend *)
+
+(* in EVERY schedule, when Stop's result has been delivered: socket closed, no
+   handler in flight, no post-response hook pending, serve loop not reading *)
+Theorem C16_udp_stop_quiescent :
+  forall sched, let s := urun true sched uinit in u_stop s = TDone -> u_quiescent s.
+Proof. exact udp_stop_quiescent. Qed.
+Print Assumptions C16_udp_stop_quiescent.
+
+(* ... and no goroutine of the frontend does anything observable ever after (DESIGN 9.B-10) *)
+Theorem C16_udp_silent_after_stop :
+  forall sched more a, let s := urun true sched uinit in
+    u_stop s = TDone -> uobservable a (urun true more s) = false.
+Proof. exact udp_silent_after_stop. Qed.
+Print Assumptions C16_udp_silent_after_stop.
+
+(* serve never fails on a closed socket, the WaitGroup never goes negative (both variants) *)
+Theorem C16_udp_never_fatal :
+  forall tracked sched, u_fatal (urun tracked sched uinit) = false.
+Proof. exact udp_never_fatal. Qed.
+Print Assumptions C16_udp_never_fatal.
+
+Theorem C16_udp_handler_has_socket :
+  forall tracked sched, let s := urun tracked sched uinit in u_handlers s <> 0 -> u_sock s = true.
+Proof. exact udp_handler_has_socket. Qed.
+Print Assumptions C16_udp_handler_has_socket.
+
+(* Stop terminates, every hook invocation being one terminating step: from every
+   reachable state in which Stop was called the component ALONE can reach the
+   delivery (no deadlock), and once `closing` is closed every sequence of enabled
+   component steps is shorter than umeasure (no livelock) *)
+Theorem C16_stop_terminates_udp :
+  forall sched, let s := urun true sched uinit in
+    u_stop s <> TIdle ->
+    (exists more s', urun_sys true more s = Some s' /\ u_stop s' = TDone) /\
+    (u_closing s = true -> forall more s', urun_sys true more s = Some s' -> length more <= umeasure s).
+Proof. exact udp_stop_terminates. Qed.
+Print Assumptions C16_stop_terminates_udp.
+
+(* ---- HTTP frontend *)
+
+Theorem C16_http_stop_quiescent :
+  forall sched, let s := hrun true sched (hinit true) in h_stop s = HTDone -> h_quiescent s.
+Proof. exact http_stop_quiescent. Qed.
+Print Assumptions C16_http_stop_quiescent.
+
+Theorem C16_http_silent_after_stop :
+  forall sched more a, let s := hrun true sched (hinit true) in
+    h_stop s = HTDone -> hobservable a (hrun true more s) = false.
+Proof. exact http_silent_after_stop. Qed.
+Print Assumptions C16_http_silent_after_stop.
+
+Theorem C16_http_stop_never_misses :
+  forall sched, h_missed (hrun true sched (hinit true)) = false.
+Proof. exact http_stop_never_misses. Qed.
+Print Assumptions C16_http_stop_never_misses.
+
+Theorem C16_stop_terminates_http :
+  forall sched, let s := hrun true sched (hinit true) in
+    h_stop s <> HTIdle ->
+    (exists more s', hrun_sys true more s = Some s' /\ h_stop s' = HTDone) /\
+    (h_shutdown s = true -> forall more s', hrun_sys true more s = Some s' -> length more <= hmeasure s).
+Proof. exact http_stop_terminates. Qed.
+Print Assumptions C16_stop_terminates_http.
+
+(* ---- both frontends + Run.Stop(false) + the store *)
+
+(* in every interleaving, no call ever reaches a stopped store (no "attempted to
+   interact with stopped ... store" panic) *)
+Theorem C16_no_store_use_after_stop :
+  forall sched, sy_panic (srun true sched (sysinit true)) = false.
+Proof. exact no_store_use_after_stop. Qed.
+Print Assumptions C16_no_store_use_after_stop.
+
+Theorem C16_store_stopped_implies_quiescent :
+  forall sched, let s := srun true sched (sysinit true) in
+    sy_closed s = true ->
+    u_quiescent (sy_u s) /\ h_quiescent (sy_h s) /\
+    forall a b, utouches a (sy_u s) = false /\ htouches b (sy_h s) = false.
+Proof. exact store_stopped_implies_quiescent. Qed.
+Print Assumptions C16_store_stopped_implies_quiescent.
+
+(* ---- reload *)
+
+Theorem C16_reload_preserves_store :
+  forall (D : Type) (empty : D) (r : runst D) p,
+    r_store r = Some p -> reload D empty [] [] r = Some (MkR true (Some p)).
+Proof. exact reload_preserves_store. Qed.
+Print Assumptions C16_reload_preserves_store.
+
+(* reloads at ANY points of ANY request history change no answer and no contents *)
+Theorem C16_reload_transparent :
+  forall (D Req Resp : Type) (handle : D -> Req -> D * Resp) (empty : D) es r,
+    serving D r ->
+    run_events D Req Resp handle empty es r = run_events D Req Resp handle empty (requests_of Req es) r.
+Proof. exact reload_transparent. Qed.
+Print Assumptions C16_reload_transparent.
+
+Theorem C16_reload_history_all_answered :
+  forall (D Req Resp : Type) (handle : D -> Req -> D * Resp) (empty : D) es r,
+    serving D r ->
+    exists rf os, run_events D Req Resp handle empty es r = Some (rf, os) /\ serving D rf /\
+                  Forall (fun o => exists a, o = Answer a) os.
+Proof. exact reload_history_all_answered. Qed.
+Print Assumptions C16_reload_history_all_answered.
+
+Theorem C16_reload_error_aborts :
+  forall (D : Type) (empty : D) (r : runst D) fe lg,
+    fe <> [] \/ lg <> [] -> reload D empty fe lg r = None.
+Proof. exact reload_error_aborts. Qed.
+Print Assumptions C16_reload_error_aborts.
+
+(* ---- the code before the fixes: kernel-checked counterexample schedules *)
+
+(* F6: Stop runs before the serving goroutine assigned f.srv: its result is
+   delivered, the listener stays open and requests are served afterwards *)
 Theorem C16_http_stop_misses_unassigned_server_refuted :
   exists sched, let s := hrun false sched (hinit false) in
-    h_stop s = HTDone /\ h_lopen s = true /\ hobservable (HHandler true) s = true.
+    h_stop s = HTDone /\ h_lopen s = true /\ h_serve s = HServing /\ hobservable (HHandler true) s = true.
 Proof. exact http_stop_misses_unassigned_server_refuted. Qed.
 Print Assumptions C16_http_stop_misses_unassigned_server_refuted.
+
+(* F7: Stop(everything) completes and stops the store while a post-response hook
+   is pending; the hook then calls into the stopped store: process panic *)
+Theorem C16_afterhook_outlives_stop_refuted :
+  exists sched, let s := srun false sched (sysinit false) in
+    sy_closed s = true /\ sy_panic s = true.
+Proof. exact afterhook_outlives_stop_refuted. Qed.
+Print Assumptions C16_afterhook_outlives_stop_refuted.
+
+Theorem C16_udp_afterhook_outlives_stop_refuted :
+  exists sched, let s := urun false sched uinit in
+    u_stop s = TDone /\ u_hooks s = 1 /\ uobservable UHook s = true.
+Proof. exact udp_afterhook_outlives_stop_refuted. Qed.
+Print Assumptions C16_udp_afterhook_outlives_stop_refuted.
+
+Theorem C16_http_afterhook_outlives_stop_refuted :
+  exists sched, let s := hrun false sched (hinit false) in
+    h_stop s = HTDone /\ h_missed s = false /\ h_hooks s = 1 /\ hobservable HHook s = true.
+Proof. exact http_afterhook_outlives_stop_refuted. Qed.
+Print Assumptions C16_http_afterhook_outlives_stop_refuted.
